@@ -1,13 +1,13 @@
 #!/bin/sh
 # (re)builds the harness binaries from /repo's current working tree (harness module replaces the repo module with /repo)
 set -e
-. /verif/scripts/env.sh
-cd /verif/harness
-mkdir -p /verif/bin /verif/.work/overlay
-go build -o /verif/bin/vcheck ./cmd/vcheck
-go build -tags purego -o /verif/bin/vcheck-purego ./cmd/vcheck
+. "$(dirname "$0")/env.sh"
+cd $VERIF_ROOT/harness
+mkdir -p $VERIF_ROOT/bin $VERIF_ROOT/.work/overlay
+go build -o $VERIF_ROOT/bin/vcheck ./cmd/vcheck
+go build -tags purego -o $VERIF_ROOT/bin/vcheck-purego ./cmd/vcheck
 # scheduler build: "sync" in the two session files is replaced by the vsync shim (overlay generated from the CURRENT repo files)
-ov=/verif/.work/overlay
+ov=$VERIF_ROOT/.work/overlay
 for f in iterator/session.go builder/session.go; do
   out=$ov/$(echo $f | tr / _)
   sed 's#^\t"sync"$#\tsync "github.com/kstenerud/go-concise-encoding/vsync"#' /repo/$f > $out.tmp
@@ -16,9 +16,9 @@ for f in iterator/session.go builder/session.go; do
   rm -f $out.tmp
 done
 cat > $ov/overlay.json.tmp <<JSON
-{"Replace": {"/repo/iterator/session.go": "$ov/iterator_session.go", "/repo/builder/session.go": "$ov/builder_session.go", "/repo/vsync/vsync.go": "/verif/overlay/vsync/vsync.go"}}
+{"Replace": {"/repo/iterator/session.go": "$ov/iterator_session.go", "/repo/builder/session.go": "$ov/builder_session.go", "/repo/vsync/vsync.go": "$VERIF_ROOT/overlay/vsync/vsync.go"}}
 JSON
 cmp -s $ov/overlay.json.tmp $ov/overlay.json 2>/dev/null || mv $ov/overlay.json.tmp $ov/overlay.json
 rm -f $ov/overlay.json.tmp
-go build -tags sched -overlay $ov/overlay.json -o /verif/bin/vcheck-sched ./cmd/vcheck
-go build -race -o /verif/bin/vcheck-race ./cmd/vcheck
+go build -tags sched -overlay $ov/overlay.json -o $VERIF_ROOT/bin/vcheck-sched ./cmd/vcheck
+go build -race -o $VERIF_ROOT/bin/vcheck-race ./cmd/vcheck
